@@ -1,7 +1,6 @@
 //! C07 — months_since / years_since count whole calendar months and years (E1, all pairs in windows).
 use crate::alphabets as ab;
 use crate::engine::{call, Acc, Ctx, Out, Report};
-use crate::real::dt_from;
 use crate::refmodel::calendar as cal;
 use astrolabe::{Date, DateTime, DateUtilities};
 use serde_json::{json, Value};
@@ -91,15 +90,23 @@ fn walk_dates(b: i64, lo: i64, hi: i64, acc: &mut Acc) {
 
 const TODS: [u64; 6] = [0, 1, 21_600_000_000_001, 43_200_000_000_000, 72_000_000_000_000, 86_399_999_999_999];
 
+/// offsets carried by the two operands, rotating with the pair: they must not change the result
+/// (months are counted on the same calendar add_months works on)
+const OFFSET_PAIRS: [(i32, i32); 5] = [(0, 0), (7_200, 0), (-3_600, 7_200), (0, -86_399), (43_200, 43_200)];
+
 fn dt_pair(a: i64, ta: u64, b: i64, tb: u64, acc: &mut Acc) -> Option<(i32, i32)> {
-    let (x, y): (DateTime, DateTime) = match (dt_from(a, ta), dt_from(b, tb)) {
+    let (oa, ob) = OFFSET_PAIRS[((a + b) as u64 % 5) as usize];
+    let (x, y): (DateTime, DateTime) = match (crate::real::dt_from_off(a, ta, oa), crate::real::dt_from_off(b, tb, ob)) {
         (Some(x), Some(y)) => (x, y),
         _ => return None,
     };
+    if oa != 0 || ob != 0 {
+        acc.branch("operands-carry-offsets");
+    }
     acc.transitions += 4;
     acc.states += 1;
     let got = call(|| (x.months_since(&y), x.years_since(&y), y.months_since(&x), y.years_since(&x)));
-    let case = || json!({"kind": "dt", "a": a, "ta": ta.to_string(), "b": b, "tb": tb.to_string()});
+    let case = || json!({"kind": "dt", "a": a, "ta": ta.to_string(), "b": b, "tb": tb.to_string(), "offsets": [oa, ob]});
     match &got {
         Out::Val((m, yr, mr, yrr)) => {
             if *mr != -*m || *yrr != -*yr {
@@ -150,7 +157,7 @@ pub fn run(ctx: &Ctx) -> i32 {
     let mut rep = Report::new(ctx);
     rep.rule = "states = distinct ordered pairs; transitions = real months_since / years_since calls; for a >= b with day(b) <= 28 the value must be the unique n with b(+)n <= a < b(+)(n+1) under the reference month addition (self-checked on every pair) and years = trunc(n/12); for all pairs antisymmetry and monotonicity in a; non-trivial = pairs needing a day-of-month or time-of-day borrow".into();
     rep.assumptions = vec!["the statement's 'randomly beyond the windows' is replaced by a deterministic lattice: every 4099th day (phase from the seed) paired with every landmark day".into(), "the implementation's add_months is bound to the reference month addition by C05".into()];
-    rep.require(&["exact-value-judged", "day-borrow", "antisymmetric-side", "time-of-day-borrow"]);
+    rep.require(&["exact-value-judged", "day-borrow", "antisymmetric-side", "time-of-day-borrow", "operands-carry-offsets"]);
     let yr = |y: i64, first: bool| {
         let a = cal::astro(y).unwrap();
         (if first { cal::days_from_civil(a, 1, 1) } else { cal::days_from_civil(a, 12, 31) }).clamp(cal::MIN_DAY, cal::MAX_DAY)
